@@ -345,12 +345,35 @@ theorem scan_rangeJ {c : Ctx} {w : Wid} (hKN : KeysNodup c.own) (hC : ChainOK c)
 
 -- ------------------------------------------------------------------ one batch, the whole rescan
 
+theorem ready_contains_iff (s : Store) (ws : List Wid) (w' : Wid) :
+    (readyWallets s ws).contains w' = true ↔ w' ∈ ws ∧
+      (match AMap.get s.status w' with
+        | some st => st.synced.isNone && !st.removed
+        | none => false) = true := by
+  unfold readyWallets
+  rw [List.contains_iff_mem, List.mem_filter]
+  exact Iff.rfl
+
+theorem ready_contains_congr {s s' : Store} {ws : List Wid} {w' : Wid} (h : AMap.get s'.status w' = AMap.get s.status w') :
+    (readyWallets s' ws).contains w' = (readyWallets s ws).contains w' := by
+  have h1 := ready_contains_iff s ws w'
+  have h2 := ready_contains_iff s' ws w'
+  rw [h] at h2
+  cases ha : (readyWallets s ws).contains w' <;> cases hb : (readyWallets s' ws).contains w'
+  · rfl
+  · exact absurd (h1.2 (h2.1 hb)) (by rw [ha]; simp)
+  · exact absurd (h2.2 (h1.1 ha)) (by rw [hb]; simp)
+  · rfl
+
 /-- **the scan invariant with other wallets in the instance** -/
 structure ScanJ (c : Ctx) (w : Wid) (s : Store) (k : Nat) : Prop where
   agree : AgreeJ s (bookOf c.p (ownR c.own w) c.node.chain) (bookOf c.p (ownW c.own w) (c.node.chain.take (k + 1)))
   blocks : BlocksOK c.node.chain s
   txpos : TxPos (occs c.node.chain) s
   bal : AMap.get s.balance w = some (totalU (bookOf c.p (ownW c.own w) (c.node.chain.take (k + 1))).L w)
+  /-- the balances of the other, ready, wallets are their ledger totals for the whole chain -/
+  balR : ∀ w', w' ≠ w → (readyWallets s c.wallets).contains w' = true →
+    AMap.get s.balance w' = some (totalU (bookOf c.p (ownR c.own w) c.node.chain).L w')
   sync : ∀ h, AMap.get s.sync h = syncOf c.node.chain h
   syncedTo : s.syncedTo + 1 = c.node.chain.length
 
@@ -428,6 +451,19 @@ theorem importStep_scanJ {batch : Nat} (hb : batch > 0) {c : Ctx} {w : Wid} (hKN
       rw [hbv] at this
       simp only [AMap.get_cons, if_true] at this
       rw [← this]
+    · intro w' hw' hr
+      show AMap.get (sb.2.foldl (fun (m : AMap.T Wid Nat) (e : Wid × Nat) => AMap.put m e.1 e.2) sb.1.balance) w' = _
+      rw [hbalw w']
+      have hne : ¬ w = w' := fun e => hw' e.symm
+      simp only [hne, if_false]
+      apply hS.balR w' hw'
+      rw [← hr]
+      symm
+      apply ready_contains_congr
+      show AMap.get (AMap.put sb.1.status w _) w' = _
+      rw [AMap.get_put]
+      simp only [hne, if_false]
+      rw [hSS.status]
     · intro h
       show AMap.get sb.1.sync h = _
       rw [hSS.sync]; exact hS.sync h
